@@ -13,6 +13,13 @@ VARIANTS = {
         "rustflags": "-Zsanitizer=address -Cforce-frame-pointers=yes",
         "release": True,
     },
+    "interp-asan": {
+        "features": "verif",
+        "toolchain": "nightly",
+        "target": "x86_64-unknown-linux-gnu",
+        "rustflags": "-Zsanitizer=address -Cforce-frame-pointers=yes",
+        "release": True,
+    },
     "repo-bin": {"kind": "repo-bin", "features": ""},
     "repo-bin-jit": {"kind": "repo-bin", "features": "jit"},
     # the harness under the Miri interpreter (no fork, no translated code, no file mmap); aliasing models off, see DESIGN section 5
@@ -28,6 +35,23 @@ def miri_phase(monitor, total, timeout=5000):
     """16 workers under Miri, each one slice out of `total` slices of the monitor's quick workload"""
     return {"variant": "miri", "monitor": monitor, "shards": 16, "nshards_total": total, "tiers": ("thorough",), "worker_tier": "quick",
             "name": "%s@miri(16 of %d slices)" % (monitor, total), "timeout": timeout}
+
+def asan_phase(monitor, args=None, variant="jit-asan"):
+    """the monitor's whole quick workload again on an AddressSanitizer build (optimised; with or without the recompiler)"""
+    return {"variant": variant, "monitor": monitor, "shards": 16, "tiers": ("thorough",), "worker_tier": "quick", "env": ASAN_ENV,
+            "args": dict(args or {}), "name": "%s@%s(quick workload)" % (monitor, variant)}
+
+
+def valgrind_stream_pair(monitor, total):
+    """a slice of the program workload of c03/c04 under valgrind memcheck: the interpreter-only build records
+    its own set of digest streams for the slice, the jit build replays it under memcheck (which also checks every
+    load and store made by the generated x86 code)"""
+    common = {"shards": 16, "nshards_total": total, "tiers": ("thorough",), "worker_tier": "quick"}
+    w = dict(common, variant="interp-dbg", monitor=monitor, args={"role": "write", "stream-tag": "-vg"}, name="%s-interpreter-stream(16 of %d slices)" % (monitor, total))
+    c = dict(common, variant="jit-dbg", monitor=monitor, args={"role": "compare", "stream-tag": "-vg", "sanitizer-exit": 9}, wrapper=VALGRIND,
+             name="%s@valgrind-memcheck(16 of %d slices)" % (monitor, total), timeout=3000)
+    return [w, c]
+
 
 REFCPU = "reference SM83 model /verif/harness/src/refmodel/cpu.rs (written from the public opcode tables, octal decode) is the oracle"
 
@@ -79,7 +103,7 @@ CHECKS = {
         "phases": [
             {"variant": "interp-dbg", "monitor": "c03", "shards": 16, "args": {"role": "write"}, "name": "c03-interpreter-stream"},
             {"variant": "jit-dbg", "monitor": "c03", "shards": 16, "args": {"role": "compare"}, "name": "c03-jit-warm-and-cold"},
-        ],
+        ] + valgrind_stream_pair("c03", 160),
         "floors": {"quick": {"steps-compared-with-interpreter-build": 500_000, "cache-hits-after-a-bank-switch": 5_000, "jit:bank-register-writes": 20_000, "cache-entries-observed": 2_000},
                    "thorough": {"steps-compared-with-interpreter-build": 5_000_000}},
         "exhaustive": {"quick": False, "thorough": False},
@@ -97,7 +121,7 @@ CHECKS = {
             {"variant": "jit-dbg", "monitor": "c04", "shards": 16, "args": {"role": "compare"}, "name": "c04-jit-compare"},
             {"variant": "interp-rel", "monitor": "c04", "shards": 16, "args": {"role": "write"}, "name": "c04-interpreter-stream-release", "tiers": ("thorough",)},
             {"variant": "jit-rel", "monitor": "c04", "shards": 16, "args": {"role": "compare"}, "name": "c04-jit-compare-release", "tiers": ("thorough",)},
-        ],
+        ] + valgrind_stream_pair("c04", 160),
         "floors": {"quick": {"steps-compared-with-interpreter-build": 600_000, "jit:dispatches:vblank": 100, "jit:dispatches:timer": 1_000, "jit:dma-transfers": 300,
                              "jit:ram-resident-blocks": 5_000, "jit:suspended-steps": 100_000, "jit:serial-bytes": 500},
                    "thorough": {"steps-compared-with-interpreter-build": 10_000_000}},
@@ -148,6 +172,7 @@ CHECKS = {
             {"variant": "interp-dbg", "monitor": "c07", "shards": 16},
             {"variant": "interp-rel", "monitor": "c07", "shards": 16, "tiers": ("thorough",)},
             {"variant": "jit-dbg", "monitor": "c07", "shards": 16, "tiers": ("thorough",)},
+            asan_phase("c07"),
         ],
         "floors": {"quick": {"evaluations": 8_000_000, "dispatches-cancelled-by-push": 1000, "push-hits-IE": 1000, "push-hits-IF": 1000}, "thorough": {"evaluations": 60_000_000}},
         "exhaustive": {"quick": True, "thorough": True},
@@ -163,6 +188,7 @@ CHECKS = {
         "phases": [
             {"variant": "interp-dbg", "monitor": "c08", "shards": 16, "tiers": ("quick",)},
             {"variant": "interp-rel", "monitor": "c08", "shards": 16, "tiers": ("thorough",)},
+            asan_phase("c08", variant="interp-asan"),
         ],
         "floors": {"quick": {"evaluations": 900_000, "steps-compared": 5_000_000}, "thorough": {"evaluations": 50_000_000}},
         "exhaustive": {"quick": True, "thorough": True},
@@ -179,6 +205,7 @@ CHECKS = {
         "phases": [
             {"variant": "interp-dbg", "monitor": "c09", "shards": 16},
             {"variant": "jit-dbg", "monitor": "c09", "shards": 16},
+            asan_phase("c09"),
         ],
         "floors": {"quick": {"evaluations": 3_000_000, "dispatches": 5_000, "steps:halted-or-stopped": 100_000, "run_frame-calls": 500},
                    "thorough": {"evaluations": 30_000_000}},
@@ -195,6 +222,7 @@ CHECKS = {
         "phases": [
             {"variant": "interp-dbg", "monitor": "c10", "shards": 16, "tiers": ("quick",)},
             {"variant": "interp-rel", "monitor": "c10", "shards": 16, "tiers": ("thorough",)},
+            asan_phase("c10", variant="interp-asan"),
         ],
         "floors": {"quick": {"evaluations": 15_000, "bytes-read-back-and-compared": 400_000_000}, "thorough": {"evaluations": 390_000}},
         "exhaustive": {"quick": False, "thorough": True},
@@ -227,6 +255,7 @@ CHECKS = {
                 "distinct_nontrivial = distinct (configuration, register state) pairs reached",
         "phases": [
             {"variant": "interp-dbg", "monitor": "c12", "shards": 16},
+            asan_phase("c12", variant="interp-asan"),
         ],
         "floors": {"quick": {"evaluations": 5_000_000, "configurations": 60}, "thorough": {"evaluations": 60_000_000, "configurations": 504}},
         "exhaustive": {"quick": False, "thorough": True},
@@ -278,7 +307,7 @@ CHECKS = {
                 "restarts at every progress; the hook log (H1 writes, H2 reads) of every batch must be exactly reads XX00+i / writes FE00+i ascending with the values the normal map "
                 "returns at that time, min(remaining, cycles) of them, nothing else written (RAM digests), inactive exactly after 160 cycles, final OAM equal across partitions. "
                 "distinct_nontrivial = distinct source pages",
-        "phases": [{"variant": "interp-dbg", "monitor": "c16", "shards": 16}],
+        "phases": [{"variant": "interp-dbg", "monitor": "c16", "shards": 16}, asan_phase("c16", variant="interp-asan")],
         "floors": {"quick": {"evaluations": 8_000, "restarts": 3_000, "bytes-copied-and-checked": 1_500_000}, "thorough": {"evaluations": 40_000}},
         "exhaustive": {"quick": False, "thorough": False},
         "assumptions": ["source values are sampled by the monitor immediately before each batch, i.e. at catch-up granularity"],
